@@ -332,9 +332,12 @@ fn setup_template(ctx: &mut Ctx, r: &mut Rng, tmpl: &Path) -> Option<Scenario> {
         let _ = git::run(tmpl, &["update-ref", "-d", &format!("refs/keep/{i}")]);
     }
     let pool = ["refs/heads/main", "refs/heads/a", "refs/heads/dir/b", "refs/tags/t", "refs/heads/dir/sub/c"];
+    // directed shape (1 in 4): a reference whose packed copy is stale (packed A, loose B) is deleted - the only
+    // shape in which the order "packed-refs first, loose file second" is observable after a crash
+    let directed: Option<&str> = if r.chance(1, 4) { Some(*r.pick(&pool[1..])) } else { None };
     let mut present: BTreeMap<String, String> = BTreeMap::new();
     for n in pool {
-        if r.chance(3, 4) {
+        if r.chance(3, 4) || directed == Some(n) {
             let v = r.pick(&c[..4]).clone();
             if git::ok(tmpl, &["update-ref", n, &v]).is_ok() {
                 present.insert(n.to_string(), v);
@@ -343,13 +346,16 @@ fn setup_template(ctx: &mut Ctx, r: &mut Rng, tmpl: &Path) -> Option<Scenario> {
     }
     let _ = git::ok(tmpl, &["symbolic-ref", "HEAD", "refs/heads/main"]);
     let mut placement = String::new();
-    if r.chance(2, 3) {
+    if r.chance(2, 3) || directed.is_some() {
         let _ = git::ok(tmpl, &["pack-refs", "--all"]);
         placement.push_str("packed");
         // stale packed copies: move some loose refs afterwards
         for n in pool {
-            if present.contains_key(n) && r.chance(1, 3) {
-                let v = r.pick(&c[..4]).clone();
+            if present.contains_key(n) && (r.chance(1, 3) || directed == Some(n)) {
+                let mut v = r.pick(&c[..4]).clone();
+                if directed == Some(n) && Some(&v) == present.get(n) {
+                    v = c.iter().take(4).find(|x| Some(*x) != present.get(n)).cloned().unwrap_or(v);
+                }
                 if git::ok(tmpl, &["update-ref", n, &v]).is_ok() {
                     present.insert(n.to_string(), v);
                     placement.push_str("+stale");
@@ -369,6 +375,10 @@ fn setup_template(ctx: &mut Ctx, r: &mut Rng, tmpl: &Path) -> Option<Scenario> {
         candidates.push("refs/heads/sym");
     }
     r.shuffle(&mut candidates);
+    if let Some(d) = directed {
+        candidates.retain(|n| *n != d);
+        candidates.insert(0, d);
+    }
     let n_edits = 1 + r.usize(3);
     let mut edits = Vec::new();
     let mut used: BTreeSet<String> = BTreeSet::new();
@@ -387,7 +397,7 @@ fn setup_template(ctx: &mut Ctx, r: &mut Rng, tmpl: &Path) -> Option<Scenario> {
         used.insert(effective.to_string());
         used.insert(name.to_string());
         let cur = present.get(effective).cloned();
-        let delete = cur.is_some() && r.chance(1, 3) && !(name == "HEAD" && !deref);
+        let delete = cur.is_some() && (r.chance(1, 3) || directed == Some(name)) && !(name == "HEAD" && !deref);
         let expected = match (cur.as_ref(), r.below(4)) {
             (Some(v), 0) if !(is_sym && !deref) => json!({"kind": "must-exist-and-match", "value": {"oid": v}}),
             (Some(_), 1) => json!({"kind": "must-exist"}),
@@ -415,7 +425,7 @@ fn setup_template(ctx: &mut Ctx, r: &mut Rng, tmpl: &Path) -> Option<Scenario> {
     Some(Scenario {
         spec: json!({"edits": edits, "packed": packed, "reflog": reflog}),
         names,
-        shape: format!("{}|{}|{}|{}", kinds.join(","), packed, reflog, placement),
+        shape: format!("{}|{}|{}|{}{}", kinds.join(","), packed, reflog, placement, if directed.is_some() { "|directed-stale-delete" } else { "" }),
     })
 }
 
